@@ -6,7 +6,7 @@ attribute values of every node against the model) plus an isolation probe:
 separately constructed nodes never share flags, AuxData maps, attribute sets
 or collections - with default arguments and with one argument object passed
 to two constructors."""
-from .. import ownership
+from .. import ownership, world
 from ..ctx import Discrepancy
 from . import c03
 
@@ -153,8 +153,104 @@ def isolation(ctx, case, gt):
                     "mutated does not start empty (%s)" % label, {})
 
 
+def isolation_loaded(ctx, case, gt):
+    """Nodes that come out of a file are separately constructed nodes too:
+    equal values in the file (flag lists, contents, attribute sets, tables)
+    must not become one shared object in the loaded IR, in a second load of
+    the same bytes, or in a load made after the first one was edited."""
+    from .. import irio
+    rnd = case.rnd
+    F = gt.Section.Flag
+    A = gt.SymbolicExpression.Attribute
+    ir = gt.IR()
+    ir.aux_data["t"] = gt.AuxData([1, 2], "sequence<uint8_t>")
+    ir.aux_data["u"] = gt.AuxData([1, 2], "sequence<uint8_t>")
+    for mi in range(2):
+        m = gt.Module(name="m", ir=ir)
+        m.aux_data["t"] = gt.AuxData([1, 2], "sequence<uint8_t>")
+        y = gt.Symbol("y", module=m)
+        for si in range(2):
+            s_ = gt.Section(name="s", flags={F.Readable, F.Loaded}, module=m)
+            for ii in range(2):
+                bi = gt.ByteInterval(size=8, contents=b"abcd", section=s_)
+                bi.symbolic_expressions[2] = gt.SymAddrConst(0, y, {A.GOT})
+                bi.symbolic_expressions[4] = gt.SymAddrAddr(1, 0, y, y,
+                                                            {A.GOT})
+    raw = irio.save(ir)
+
+    def fps(l):
+        out = {}
+        for n in world.reachable(gt, l):
+            d = {}
+            if isinstance(n, gt.Section):
+                d["flags"] = sorted(f.name for f in n.flags)
+            if isinstance(n, gt.ByteInterval):
+                d["contents"] = bytes(n.contents)
+                for off, e in n.symbolic_expressions.items():
+                    d["attrs@%d" % off] = sorted(a.name
+                                                 for a in e.attributes)
+            if hasattr(n, "aux_data"):
+                for k, a in n.aux_data.items():
+                    d["aux:" + k] = repr(a.data)
+            out[n.uuid] = d
+        return out
+
+    L1, L2 = irio.load(gt, raw), irio.load(gt, raw)
+    pristine = fps(L1)
+    if fps(L2) != pristine:
+        raise Discrepancy("C04", "loaded-twice-differs", "two loads of one "
+                          "file differ", {})
+    m1 = L1.modules[0]
+    s1 = next(iter(m1.sections))
+    b1 = next(iter(s1.byte_intervals))
+    edits = [
+        ("Section.flags", s1, "flags", lambda: s1.flags.add(F.Writable)),
+        ("ByteInterval.contents", b1, "contents",
+         lambda: b1.contents.__setitem__(0, 0x7A)),
+        ("SymAddrConst.attributes", b1, "attrs@2",
+         lambda: b1.symbolic_expressions[2].attributes.add(A.PLT)),
+        ("SymAddrAddr.attributes", b1, "attrs@4",
+         lambda: b1.symbolic_expressions[4].attributes.add(A.PLT)),
+        ("Module.aux_data value", m1, "aux:t",
+         lambda: m1.aux_data["t"].data.append(9)),
+        ("IR.aux_data value", L1, "aux:t",
+         lambda: L1.aux_data["t"].data.append(9)),
+    ]
+    rnd.shuffle(edits)
+    expect1 = {u: dict(d) for u, d in pristine.items()}
+    for label, node, key, do in edits:
+        do()
+        now1 = fps(L1)
+        expect1[node.uuid][key] = now1[node.uuid][key]
+        ctx.count("cases")
+        ctx.count("isolation_probes_loaded")
+        ctx.seen("nontrivial", ("iso-loaded", label))
+        if now1[node.uuid][key] == pristine[node.uuid][key]:
+            raise Discrepancy("C04", "edit-without-effect:" + label,
+                              "in-place edit of %s of a loaded node did "
+                              "not show" % label, {})
+        if now1 != expect1:
+            raise Discrepancy(
+                "C04", "shared-state:%s:loaded-same-ir" % label,
+                "editing %s of one loaded node in place changed another "
+                "node of the same loaded IR" % label, {})
+        if fps(L2) != pristine:
+            raise Discrepancy(
+                "C04", "shared-state:%s:loaded-other-ir" % label,
+                "editing %s of a loaded node in place changed a node of "
+                "another IR loaded from the same bytes" % label, {})
+        if fps(irio.load(gt, raw)) != pristine:
+            raise Discrepancy(
+                "C04", "shared-state:%s:later-load" % label,
+                "after %s of a loaded node was edited in place, a fresh "
+                "load of the same bytes no longer matches the file"
+                % label, {})
+
+
 def run(ctx):
     import gtirb
     c03.run(ctx, "C04")
+    for case in ctx.cases("iso_loaded", max(2, ctx.params.get("n_iso", 8) // 2)):
+        ctx.run_case(case, lambda c: isolation_loaded(ctx, c, gtirb))
     for case in ctx.cases("iso", ctx.params.get("n_iso", 8)):
         ctx.run_case(case, lambda c: isolation(ctx, c, gtirb))
